@@ -7,13 +7,17 @@ import (
 	"strconv"
 	"strings"
 
+	"github.com/consensys/gnark-crypto/ecc"
+	"github.com/consensys/gnark/constraint"
 	"github.com/consensys/gnark/frontend"
+	"github.com/consensys/gnark/frontend/cs/r1cs"
 	"github.com/wormhole-foundation/example-near-light-client/plonk/gates"
 	"github.com/wormhole-foundation/example-near-light-client/variables"
 
 	"verifharness/circ"
 	"verifharness/engine"
 	"verifharness/fw"
+	"verifharness/gadget"
 	"verifharness/inst"
 	"verifharness/ref"
 )
@@ -313,6 +317,20 @@ func init() {
 						cs = append(cs, fw.Case{ID: fmt.Sprintf("desc/%s/%s/%d/%s", name, d.What, d.I, trunc(d.Arg, 40)+fmt.Sprint(len(d.Arg))), Kind: "desc", P: map[string]any{"inst": name, "what": d.What, "i": d.I, "arg": d.Arg}})
 					}
 				}
+				// the whole verifier (k=1 restriction) compiled with gnark's real R1CS builder and
+				// solved with the real solver: honest witness + tampered witnesses
+				ncomp := 10
+				cinst := []string{"A_testdata"}
+				if !ctx.Quick {
+					ncomp = 150
+					cinst = []string{"A_testdata", "B_random_CGZ"}
+				}
+				for _, n := range cinst {
+					cs = append(cs, fw.Case{ID: "compiled/" + n + "/honest", Kind: "compiled", P: map[string]any{"inst": n, "i": -1}})
+					for i := 0; i < ncomp; i++ {
+						cs = append(cs, fw.Case{ID: fmt.Sprintf("compiled/%s/tamper/%d", n, i), Kind: "compiled", P: map[string]any{"inst": n, "i": i}})
+					}
+				}
 				// cross pairings
 				pairs := [][2]string{{"A_testdata", "B_random_CGZ"}, {"B_random_CGZ", "A_testdata"}, {"B_epoch_CbAH", "A_testdata"}}
 				for _, p := range pairs {
@@ -415,6 +433,60 @@ func init() {
 					}
 					o.Inc("desc_rejected_" + d.What + "_" + res.Verdict.String())
 					o.Sample = map[string]any{"change": d.What, "i": d.I, "ref": trunc(refErr.Error(), 60), "verdict": resStr(res)}
+				case "compiled":
+					in := getInst(name).Restrict(1)
+					cp := ctx.Once("bigcs/"+name, func() any {
+						cs, err := frontend.Compile(ecc.BN254.ScalarField(), r1cs.NewBuilder, in.Clone().VerifierCircuit())
+						if err != nil {
+							return err
+						}
+						return cs
+					})
+					ccs, ok := cp.(constraint.ConstraintSystem)
+					if !ok {
+						return fw.Inconcl(fmt.Sprintf("compiling the whole verifier: %v", cp))
+					}
+					solve := func(i *inst.Instance) error {
+						w, err := frontend.NewWitness(i.VerifierCircuit(), ecc.BN254.ScalarField())
+						if err != nil {
+							return err
+						}
+						return ccs.IsSolved(w, gadget.CommitOverrides(ccs)...)
+					}
+					if c.Int("i") < 0 {
+						if err := solve(in.Clone()); err != nil {
+							return fw.Violate("compiled_r1cs_rejects_valid_proof", fmt.Sprintf("%s k=1: %v", name, trunc(err.Error(), 200)))
+						}
+						res := runVerifier(in.Clone(), engine.Options{Face: engine.Commit})
+						if res.Verdict != engine.Accept {
+							return fw.Inconcl("engine (commit face) rejects the valid k=1 instance: " + resStr(res))
+						}
+						o.Events += events(res)
+						o.Add("compiled_r1cs_constraints", ccs.GetNbConstraints())
+						o.Inc("compiled_r1cs_honest_solved")
+						o.Sample = map[string]any{"constraints": ccs.GetNbConstraints(), "honest": "solved"}
+						return o
+					}
+					t := in.Clone()
+					ls := c01Leaves(t)
+					r := ctx.Rand(c.ID)
+					l := ls[r.Intn(len(ls))]
+					pert := c01Perts[r.Intn(len(c01Perts))]
+					changed, desc := c01Apply(ls, l.Path, pert, ctx, c.ID)
+					if !changed {
+						return fw.Outcome{Trivial: true}
+					}
+					err := solve(t)
+					res := runVerifier(t, engine.Options{Face: engine.Native})
+					o.Events += events(res) + 1
+					if err == nil {
+						return fw.Violate("compiled_r1cs_accepts_tampered:"+l.Kind+":"+pert, fmt.Sprintf("case %s: %s %s: gnark's R1CS solver found the tampered witness satisfying (engine: %s)", c.ID, l.Path, desc, resStr(res)))
+					}
+					if res.Verdict == engine.Accept {
+						return fw.Violate("accepts_tampered:"+l.Kind+":"+pert, fmt.Sprintf("case %s: engine ACCEPTED while the compiled system rejects", c.ID))
+					}
+					o.Inc("compiled_r1cs_and_engine_agree_reject")
+					o.Sample = map[string]any{"leaf": l.Path, "change": desc, "solver": trunc(err.Error(), 60), "engine": resStr(res)}
 				case "pair":
 					in := getInst(name).Clone()
 					other := getInst(c.Str("other"))
